@@ -130,7 +130,7 @@ func init() {
 					zw.Write([]byte("tiny"))
 					zw.Close()
 				}
-				for _, sz := range []uint32{4, 5, 1 << 20, 1 << 26, 1 << 28, 1 << 30, 1<<32 - 1} {
+				for _, sz := range []uint32{0, 1, 3, 4, 5, 1 << 20, 1 << 26, 1 << 28, 1 << 30, 1<<32 - 1} { // less, exactly, more than the stream yields
 					body := 1 + 4 + zb.Len()
 					b := hdr(uint32(8+body), 1, 200, body)
 					b[8] = algo.ID()
